@@ -49,6 +49,20 @@ _CMP = {
 _GEN_CACHE = {}
 
 
+class _OsStub:
+    """`os` as far as the library uses it: an empty environment (every setting takes its default)"""
+
+    _abstract = True
+    environ = {}
+
+    @staticmethod
+    def getenv(name, default=None):
+        return default
+
+
+_OS_STUB = _OsStub()
+
+
 class _Break(Exception):
     pass
 
@@ -344,6 +358,8 @@ class Evaluator:
                 return getattr(_b, e.id)
             if e.id == "itertools":
                 return _itertools
+            if e.id == "os":
+                return _OS_STUB
             if e.id in ("OrderedDict", "defaultdict", "namedtuple"):
                 import collections
 
@@ -397,6 +413,8 @@ class Evaluator:
                 if type(op) not in _CMP:
                     raise Unsupported(src(e))
                 r = self.compare(type(op), left, right, fi)
+                if len(e.ops) == 1 and not isinstance(r, bool):
+                    return r  # a single comparison yields whatever the operands' rich comparison yields (elementwise values)
                 if not self.truth(r):
                     return False
                 left = right
@@ -518,7 +536,8 @@ class Evaluator:
                 return ("bound", m, v)
             if attr in v.fields:
                 return v.fields[attr]
-            raise Unsupported(f"attribute {attr} on {v.cls.name}")
+            # what Python does for a missing method / unset slot
+            raise AttributeError(f"'{v.cls.name}' object has no attribute '{attr}'")
         if isinstance(v, FuncInfo) and attr == "dispatch" and self._is_generic(v):
             return lambda c, _f=v: (lambda *a, _impl=self.dispatch(_f, c), **k: self.call(_impl, list(a), k))
         if isinstance(v, ClassInfo):
